@@ -946,9 +946,29 @@ def _table_merger(ctx, f):
                   isinstance(h, ast.ExceptHandler) and any(
                       x is n for x in ast.walk(h))
                   for h in ast.walk(w))]
+    from ..paths import var_leaves as _vl
+    from ..tutil import map_term as _mt
+
+    def _through_flags(t):
+        # a flag that holds the comparison (out_of_order = a > b; if
+        # out_of_order: raise) is the comparison
+        depth = [0]
+
+        def one(x):
+            if x[0] == "var" and depth[0] < 4:
+                lv = _vl(du, T, x)
+                if len(lv) == 1 and lv[0][0] in ("cmp", "bool", "un",
+                                                 "ifexp"):
+                    depth[0] += 1
+                    try:
+                        return _mt(lv[0], one)
+                    finally:
+                        depth[0] -= 1
+            return x
+        return _mt(t, one)
     rconds = []
     for r in raises:
-        rconds.append([(simp(T.of(t)), o)
+        rconds.append([(simp(_through_flags(T.of(t))), o)
                        for t, o in cfg.necessary_conditions(r)
                        if inside(t, w) and t is not w.test])
     table, bad = [], []
